@@ -95,6 +95,13 @@ STRENGTHENED = [
     ("seeded/C17-h", "traversal treats ast.arguments as a leaf: operator calls in default values of lambda parameters are not rewritten", "C17: lambdas with a defaulted second parameter (positional / keyword-only), two more exhaustive positions"),
     ("seeded/C19-h", "fold parameters renamed one level too shallow when the sequence mentions v / acc", "C19: sequences that mention a variable of an enclosing lambda (named v / w / acc)"),
     ("seeded/C20-h", "structure text leaves out None fields: x[1:], x[:1], x[::1] collide", "untyped grammar: slices with parts left out (C10, C20); C20 edits: the parts of a slice rotated / swapped"),
+    ("seeded/C01-i", "comprehension loop variable no longer hides a captured variable in the if clauses", "C04: shadowing comprehension targets that are used in (several) if clauses; C01 modules define globals named like the binders of the queries (C04 catches the change)"),
+    ("seeded/C02-i", "depth bookkeeping of the simplifier not exception safe: after a refused query the instance skips the preparation of later ones", "C02 harness: in a quarter of the cases the shared simplifier instance has refused a query before (its index error caught by the caller)"),
+    ("seeded/C05-i", "the 'names bound around us' stack shared between the query's and the helper's rewriter", "C05: the module constant a helper uses may be spelled like a binder of the query lambda (e, j, v, x)"),
+    ("seeded/C06-i", "and-splitting of comprehension conditions takes or-groups apart", "typed generator: comprehension conditions with boolean structure of their own (`a and (b or c)`, `(a or b) and c`, `not (a and b) or c`)"),
+    ("seeded/C07-i", "item picked out of a typed sequence by a non-literal index keeps the sequence type", "C07: receivers picked by a literal / negative / computed index"),
+    ("seeded/C08-i", "field of a dictionary literal looked up by position among the constant keys only", "C08: dictionary literals with a ** / computed entry in front of the field that is read by attribute; repeated keys"),
+    ("seeded/C09-i", "callbacks skipped for a call that is not fully resolved (lambda argument of a non-collection method)", "C09: method Jet.calib(tag, f: Callable) called with a lambda"),
     ("seeded/C08-c", "generic subclass with more type parameters than its base uses", "C08 skeleton: Tag(Box[K], Generic[K,V]), Tag2(Box[V], ...), Swap(Pair[U,T], ...), HalfPair(Pair[T,int]), It2(Iterable[V], ...), TagInts(Tag[int,V]); class names taken from typing. This extension also exposed the genuine defects D29 and D30"),
 ]
 
